@@ -2,6 +2,47 @@
 open Extracted
 open Driver_lib
 
+let to_dict = to_list (to_pair to_str to_str)
+let of_dict = of_list (of_pair of_str of_str)
+
+let to_upstream (x : v) : upstream =
+  match x with
+  | L [I 0; h; b] -> UOk (to_dict h, to_str b)
+  | L [I 1; c; r] -> UHttpError (to_n c, to_opt (to_pair to_dict to_str) r)
+  | L [I 2] -> UValueError
+  | L [I 3] -> UOSError
+  | L [I 4] -> UTimeoutSimple
+  | L [I 5] -> UStreamClosed
+  | L [I 6; n] -> UCurl (to_n n)
+  | _ -> bad "upstream"
+
+let of_src (s : arg_source) : v =
+  match s with
+  | FromUrl a -> L [I 0; of_bool a]
+  | FromBody a -> L [I 1; of_bool a]
+  | FromHeaders a -> L [I 2; of_bool a]
+  | FromText a -> L [I 3; of_bool a]
+  | FromQuery q -> L [I 4; of_str q]
+
+let of_body (b : body) : v =
+  match b with
+  | BNone -> L [I 0]
+  | BError c -> L [I 1; of_n c]
+  | BDiff (d, kw, t) -> L [I 2; of_str d; of_list (of_pair of_str of_src) kw; of_bool t]
+
+let of_err (e : err) : v =
+  match e with
+  | E404Unknown -> I 0 | E400Missing -> I 1 | E403Production -> I 2 | E400Scheme -> I 3
+  | E400Value -> I 4 | E502OS -> I 5 | E504Timeout -> I 6 | E502Closed -> I 7
+  | E400CurlUrl -> I 8 | E502TooBig -> I 9 | E502CurlConnect -> I 10 | E502CurlUnknown -> I 11
+  | E502Upstream c -> L [I 12; of_n c] | E502HashMismatch -> I 13 | E422Undiffable -> I 14
+  | E422Undecodable -> I 15 | E500Internal -> I 16
+
+let of_effect (e : effect) : v =
+  match e with
+  | EFetch (u, h) -> L [I 0; of_str u; of_dict h]
+  | EOpen p -> L [I 1; of_str p]
+
 (* ---- dispatch ---- *)
 let dispatch (fn : Stdlib.String.t) (args : v list) : v =
   match fn, args with
@@ -10,6 +51,32 @@ let dispatch (fn : Stdlib.String.t) (args : v list) : v =
   | "raise_if_not_diffable_html", [a; b; ha; hb; opt] ->
       of_opt of_str (ct_error_message
         (raise_if_not_diffable_html (to_str a) (to_str b) (to_headers ha) (to_headers hb) (to_str opt)))
+  | "server_get", [prod; ups; files; fhdrs; shas; dec; dout; differ; raw; rh; em] ->
+      let ups = to_list (to_pair to_str to_upstream) ups in
+      let files = to_list (to_pair to_str to_str) files in
+      let fhdrs = to_list (to_pair to_str to_dict) fhdrs in
+      let shas = to_list (to_pair to_str to_str) shas in
+      let dec = to_list to_bool dec in
+      let lookup tbl dflt k = (try List.assoc k tbl with Not_found -> dflt) in
+      let decode_ok a_side rib =
+        List.nth dec ((if a_side then 0 else 2) + (if rib then 0 else 1)) in
+      let dout = (match dout with
+                  | L [I 0; t] -> DResult (to_bool t)
+                  | L [I 1] -> DUndiffable
+                  | _ -> DOther) in
+      let (resp, effects) =
+        get (to_bool prod) (lookup ups UOSError) (lookup files []) (lookup fhdrs []) (lookup shas [])
+          decode_ok (fun _ _ -> dout) (to_str differ) (to_dict raw) (to_dict rh) (to_bool em) in
+      L [ of_n resp.r_status; of_body resp.r_body; of_bool resp.r_etag;
+          of_opt (fun e -> of_n (err_status e)) resp.r_err; of_opt of_err resp.r_err;
+          of_list of_effect effects ]
+  | "cors_allow_origin", [conf; rh] ->
+      of_opt of_str (cors_allow_origin (to_opt to_str conf) (to_dict rh))
+  | "upstream_headers", [q; rh] -> of_dict (upstream_headers (to_dict q) (to_dict rh))
+  | "decode_query_params", [raw] -> of_dict (decode_query_params (to_dict raw))
+  | "etag_preimage", [v; path; raw] -> of_str (etag_preimage (to_str v) (to_str path) (to_dict raw))
+  | "check_etag_header", [c; inm] -> of_bool (check_etag_header (to_str c) (to_opt to_str inm))
+  | "py_repr_str", [s] -> of_str (py_repr_str (to_str s))
   | "py_lower", [s] -> of_str (py_lower (to_str s))
   | "py_strip", [s] -> of_str (py_strip (to_str s))
   | _ -> failwith (Stdlib.String.concat " " ["unknown function"; fn])
